@@ -17,6 +17,7 @@ import (
 	"sync/atomic"
 	"time"
 	_ "time/tzdata"
+	"unicode"
 
 	"ergo.services/ergo/node"
 )
@@ -1004,6 +1005,93 @@ func c20sigIsRunAt(s c20Spec, t time.Time) string {
 
 // ---- parser stream ------------------------------------------------------------
 
+// c20inGrammar is a recognizer written from the description of the format (independent of the code's regexps and of the
+// model): five white-space separated fields, each `*` or a comma list of d | d-d | d-d/d | */d | L | wL | w#n with the
+// bounds of the field; the four macros stand for fixed specs
+func c20inGrammar(text string) bool {
+	switch text {
+	case "@hourly", "@daily", "@monthly", "@weekly":
+		return true
+	}
+	var fs []string
+	cur := ""
+	for _, c := range text {
+		if unicode.IsSpace(c) {
+			if cur != "" {
+				fs = append(fs, cur)
+				cur = ""
+			}
+			continue
+		}
+		cur += string(c)
+	}
+	if cur != "" {
+		fs = append(fs, cur)
+	}
+	if len(fs) != 5 {
+		return false
+	}
+	num := func(s string, lo, hi int) bool {
+		if s == "" {
+			return false
+		}
+		v := 0
+		for _, c := range s {
+			if c < '0' || c > '9' {
+				return false
+			}
+			if v <= 1000 {
+				v = v*10 + int(c-'0')
+			}
+		}
+		return v >= lo && v <= hi
+	}
+	val := func(s string) int {
+		v := 0
+		for _, c := range s {
+			if v <= 1000 {
+				v = v*10 + int(c-'0')
+			}
+		}
+		return v
+	}
+	for k, f := range fs {
+		if f == "*" {
+			continue
+		}
+		lo, hi := c20lo[k], c20hi[k]
+		for _, o := range strings.Split(f, ",") {
+			ok := false
+			switch {
+			case num(o, lo, hi):
+				ok = true
+			case o == "L":
+				ok = k == 2
+			case strings.HasPrefix(o, "*/"):
+				ok = k != 4 && num(o[2:], 1, hi)
+			case k == 4 && len(o) == 2 && o[1] == 'L':
+				ok = o[0] >= '1' && o[0] <= '7'
+			case k == 4 && len(o) == 3 && o[1] == '#':
+				ok = o[0] >= '1' && o[0] <= '7' && o[2] >= '1' && o[2] <= '5'
+			default:
+				p := strings.SplitN(o, "-", 2)
+				if len(p) != 2 || !num(p[0], lo, hi) {
+					break
+				}
+				q := strings.SplitN(p[1], "/", 2)
+				if !num(q[0], lo, hi) || val(p[0]) > val(q[0]) {
+					break
+				}
+				ok = len(q) == 1 || (k <= 2 && num(q[1], 1, hi))
+			}
+			if !ok {
+				return false
+			}
+		}
+	}
+	return true
+}
+
 func c20K1Parser(c *Ctx) {
 	r := c.R
 	type pcase struct {
@@ -1102,6 +1190,20 @@ func c20K1Parser(c *Ctx) {
 		}
 		if p.valid == 0 && ierr == nil {
 			r.Violation("C20/malformed-spec-accepted", fmt.Sprintf("spec %q (%s) is outside the grammar but cronParseSpec accepted it", p.text, p.why), map[string]interface{}{"spec": p.text})
+		}
+		// every text, whatever stream it came from: the recognizer written from the format description
+		if g := c20inGrammar(p.text); g != (ierr == nil) {
+			if g {
+				r.Violation("C20/valid-spec-rejected", fmt.Sprintf("text %q (%s) is inside the grammar but cronParseSpec returned %v", p.text, p.why, ierr), map[string]interface{}{"spec": p.text})
+			} else {
+				r.Violation("C20/malformed-spec-accepted", fmt.Sprintf("text %q (%s) is outside the grammar but cronParseSpec accepted it", p.text, p.why), map[string]interface{}{"spec": p.text})
+			}
+		} else if p.valid == -1 {
+			if g {
+				r.Count("parser.unlabelled-in-grammar")
+			} else {
+				r.Count("parser.unlabelled-outside-grammar")
+			}
 		}
 		var want string
 		if ierr != nil {
